@@ -11,6 +11,7 @@ package main
 
 import (
 	"bytes"
+	"strconv"
 	"flag"
 	"fmt"
 	"go/ast"
@@ -90,6 +91,9 @@ func run(repo, out string) error {
 		return err
 	}
 	if err := schedule(repo, out); err != nil {
+		return err
+	}
+	if err := constants(repo, out); err != nil {
 		return err
 	}
 	return globals(repo, out)
@@ -735,6 +739,19 @@ func globals(repo, out string) error {
 								g.mutated = true
 							}
 						}
+						// a method called on a package-level variable may mutate what it points to
+						// (e.g. (*template.Template).Funcs); pure-by-convention and lock methods excepted
+						if sel, ok := st.Fun.(*ast.SelectorExpr); ok && !isInit {
+							if id, ok := sel.X.(*ast.Ident); ok && (id.Obj == nil || pkgObjs[id.Obj]) {
+								if g, ok := names[id.Name]; ok {
+									switch sel.Sel.Name {
+									case "Lock", "Unlock", "RLock", "RUnlock", "Error", "String", "GoString", "Value":
+									default:
+										g.mutated = true
+									}
+								}
+							}
+						}
 					case *ast.Ident:
 						// any use of the variable other than as the receiver of its own Lock/Unlock
 						if g, ok := names[st.Name]; ok && !lockRecv[st] && (st.Obj == nil || pkgObjs[st.Obj]) {
@@ -769,3 +786,192 @@ func globals(repo, out string) error {
 	b.WriteString("]\nend Tab.Generated\n")
 	return os.WriteFile(filepath.Join(out, "Globals.lean"), []byte(b.String()), 0o644)
 }
+
+// ---------------------------------------------------------------- constants the model copies from the source
+
+func findFunc(files []*ast.File, name string, recvContains string) *ast.FuncDecl {
+	for _, f := range files {
+		for _, d := range f.Decls {
+			fn, ok := d.(*ast.FuncDecl)
+			if !ok || fn.Body == nil || fn.Name.Name != name {
+				continue
+			}
+			if recvContains != "" && (fn.Recv == nil || !strings.Contains(src(fn.Recv.List[0].Type), recvContains)) {
+				continue
+			}
+			return fn
+		}
+	}
+	return nil
+}
+
+func strLit(e ast.Expr) (string, bool) {
+	b, ok := e.(*ast.BasicLit)
+	if !ok || b.Kind != token.STRING {
+		return "", false
+	}
+	v, err := strconvUnquote(b.Value)
+	return v, err == nil
+}
+
+// fieldName: "X" from a string literal "X", a selector d.X, or &d.X
+func fieldName(e ast.Expr) string {
+	if v, ok := strLit(e); ok {
+		return v
+	}
+	switch x := e.(type) {
+	case *ast.SelectorExpr:
+		return x.Sel.Name
+	case *ast.UnaryExpr:
+		return fieldName(x.X)
+	}
+	return ""
+}
+
+func leanBytes(s string) string {
+	var l []string
+	for i := 0; i < len(s); i++ {
+		l = append(l, fmt.Sprint(s[i]))
+	}
+	return "[" + strings.Join(l, ", ") + "]"
+}
+
+func constants(repo, out string) error {
+	var b strings.Builder
+	b.WriteString("-- GENERATED by extract/ from /repo on every check; do not edit.\nnamespace Tab.Generated\n")
+	strList := func(name, doc string, l []string) {
+		fmt.Fprintf(&b, "/-- %s -/\ndef %s : List (List UInt8) := [", doc, name)
+		for i, x := range l {
+			if i > 0 {
+				b.WriteString(", ")
+			}
+			b.WriteString(leanBytes(x))
+		}
+		b.WriteString("]\n")
+	}
+	// 1. Populate: base defaults and the ordered (toFill, src) pairs
+	dfiles, err := parseDir(filepath.Join(repo, "texttable", "decoration"))
+	if err != nil {
+		return err
+	}
+	var base, pairs [][2]string
+	if pop := findFunc(dfiles, "Populate", "Decoration"); pop != nil {
+		for _, st := range pop.Body.List {
+			switch x := st.(type) {
+			case *ast.IfStmt: // if d.X == "" { d.X = "lit" }
+				if len(x.Body.List) == 1 {
+					if as, ok := x.Body.List[0].(*ast.AssignStmt); ok && len(as.Lhs) == 1 && len(as.Rhs) == 1 {
+						if v, ok := strLit(as.Rhs[0]); ok && fieldName(as.Lhs[0]) != "" {
+							base = append(base, [2]string{fieldName(as.Lhs[0]), v})
+						}
+					}
+				}
+			case *ast.ExprStmt:
+				if c, ok := x.X.(*ast.CallExpr); ok && len(c.Args) >= 2 {
+					a, s2 := fieldName(c.Args[len(c.Args)-2]), fieldName(c.Args[len(c.Args)-1])
+					if a != "" && s2 != "" {
+						pairs = append(pairs, [2]string{a, s2})
+					}
+				}
+			}
+		}
+	}
+	b.WriteString("/-- Populate: fields defaulted to a literal when empty, in source order -/\ndef populateBase : List (String × List UInt8) := [")
+	for i, p := range base {
+		if i > 0 {
+			b.WriteString(", ")
+		}
+		fmt.Fprintf(&b, "(%s, %s)", leanStr(p[0]), leanBytes(p[1]))
+	}
+	b.WriteString("]\n/-- Populate: (field to fill, field it defaults to), in source order -/\ndef populatePairs : List (String × String) := [")
+	for i, p := range pairs {
+		if i > 0 {
+			b.WriteString(", ")
+		}
+		fmt.Fprintf(&b, "(%s, %s)", leanStr(p[0]), leanStr(p[1]))
+	}
+	b.WriteString("]\n")
+	// 2. auto: the switch's case literals and what ListStyles appends
+	afiles, err := parseDir(filepath.Join(repo, "auto"))
+	if err != nil {
+		return err
+	}
+	var cases, extra []string
+	for _, f := range afiles {
+		ast.Inspect(f, func(n ast.Node) bool {
+			switch x := n.(type) {
+			case *ast.CaseClause:
+				for _, e := range x.List {
+					if v, ok := strLit(e); ok {
+						cases = append(cases, v)
+					}
+				}
+			case *ast.CallExpr:
+				if id, ok := x.Fun.(*ast.Ident); ok && id.Name == "append" {
+					for _, e := range x.Args[1:] {
+						if v, ok := strLit(e); ok {
+							extra = append(extra, v)
+						}
+					}
+				}
+			}
+			return true
+		})
+	}
+	strList("autoCases", "auto.Wrap: the string literals of the style switch, in source order", cases)
+	strList("listStylesExtra", "auto.ListStyles: the literals appended to the registered decoration names", extra)
+	// 3. markdown: the (old, new) pairs of strings.Replace in the cell escaper; 4. every string literal written by json / csv
+	lits := func(pkg string, pred func(c *ast.CallExpr) []ast.Expr) []string {
+		files, err := parseDir(filepath.Join(repo, pkg))
+		if err != nil {
+			return nil
+		}
+		var l []string
+		for _, f := range files {
+			ast.Inspect(f, func(n ast.Node) bool {
+				if c, ok := n.(*ast.CallExpr); ok {
+					for _, e := range pred(c) {
+						if v, ok := strLit(e); ok {
+							l = append(l, v)
+						}
+					}
+				}
+				return true
+			})
+		}
+		return l
+	}
+	calledAs := func(c *ast.CallExpr, names ...string) bool {
+		s, ok := c.Fun.(*ast.SelectorExpr)
+		if !ok {
+			return false
+		}
+		for _, n := range names {
+			if s.Sel.Name == n {
+				return true
+			}
+		}
+		return false
+	}
+	md := lits("markdown", func(c *ast.CallExpr) []ast.Expr {
+		if calledAs(c, "Replace", "ReplaceAll") && len(c.Args) >= 3 {
+			return c.Args[1:3]
+		}
+		if calledAs(c, "NewReplacer") {
+			return c.Args
+		}
+		return nil
+	})
+	strList("mdReplacements", "markdown cell escaper: old/new literals of its strings.Replace calls, innermost call last in source text", md)
+	js := lits("json", func(c *ast.CallExpr) []ast.Expr {
+		if calledAs(c, "WriteString") && len(c.Args) == 2 {
+			return c.Args[1:]
+		}
+		return nil
+	})
+	strList("jsonWritten", "json: every string literal passed to io.WriteString, in source order", js)
+	b.WriteString("end Tab.Generated\n")
+	return os.WriteFile(filepath.Join(out, "Constants.lean"), []byte(b.String()), 0o644)
+}
+
+func strconvUnquote(v string) (string, error) { return strconv.Unquote(v) }
